@@ -1,9 +1,10 @@
 (* Extraction of the executable models to OCaml (ExtrOcamlBasic only). *)
 Require Import ExtrOcamlBasic.
-Require Import NS.theories.Generated NS.theories.Bump NS.theories.Pool NS.theories.StrLib NS.theories.NumParse.
+Require Import NS.theories.Generated NS.theories.Bump NS.theories.Pool NS.theories.StrLib NS.theories.NumParse NS.theories.CaseMap.
 Extraction Language OCaml.
 Extraction "extract/Model.ml"
   Bump.ctrace Bump.cinit Bump.cstep Bump.observe
   Pool.pstep Pool.pool_new Pool.pcounters Pool.sstep Pool.pset_new Pool.class_counters Pool.size_class
   StrLib.find StrLib.replace StrLib.split StrLib.join StrLib.slice StrLib.str_len StrLib.trim StrLib.is_whitespace
-  NumParse.to_number_bits NumParse.roundtrip_obs.
+  NumParse.to_number_bits NumParse.roundtrip_obs
+  CaseMap.to_upper CaseMap.to_lower CaseMap.upper_cp CaseMap.lower_cp CaseMap.encode.
